@@ -1,0 +1,46 @@
+//go:build verif
+
+package main
+
+import (
+	"encoding/json"
+
+	"github.com/ludo-technologies/pyscn/domain"
+)
+
+func init() {
+	// clone_validate: domain.CloneRequest.Validate on the given requests and
+	// domain.ShouldUseLSH on the given (mode, fragment count, auto threshold) triples.
+	register("clone_validate", func(raw json.RawMessage) (interface{}, error) {
+		var in struct {
+			Requests []domain.CloneRequest `json:"requests"`
+			LSH      []struct {
+				Mode      string `json:"mode"`
+				Count     int    `json:"count"`
+				Threshold int    `json:"threshold"`
+			} `json:"lsh"`
+		}
+		if err := json.Unmarshal(raw, &in); err != nil {
+			return nil, err
+		}
+		type verdict struct {
+			OK    bool   `json:"ok"`
+			Error string `json:"error,omitempty"`
+		}
+		out := struct {
+			Validate []verdict `json:"validate"`
+			UseLSH   []bool    `json:"use_lsh"`
+		}{Validate: []verdict{}, UseLSH: []bool{}}
+		for i := range in.Requests {
+			if err := in.Requests[i].Validate(); err != nil {
+				out.Validate = append(out.Validate, verdict{OK: false, Error: err.Error()})
+			} else {
+				out.Validate = append(out.Validate, verdict{OK: true})
+			}
+		}
+		for _, l := range in.LSH {
+			out.UseLSH = append(out.UseLSH, domain.ShouldUseLSH(l.Mode, l.Count, l.Threshold))
+		}
+		return out, nil
+	})
+}
